@@ -12,6 +12,8 @@ from .rng import Chooser
 VIRTUALS = ["signal-A", "signal-B", "signal-C", "signal-D", "signal-E", "signal-X", "signal-Y",
             "signal-Z", "signal-1", "signal-2", "signal-red", "signal-green", "signal-dot",
             "signal-info", "signal-check"]
+MORE_VIRTUALS = [f"signal-{c}" for c in "FGHIJKLMNOPQRSTUV"] + [f"signal-{d}" for d in "03456789"] + [
+    "signal-blue", "signal-yellow", "signal-pink", "signal-cyan", "signal-white", "signal-grey", "signal-black"]
 ITEMS = ["iron-plate", "copper-plate", "coal", "steel-plate", "iron-ore", "electronic-circuit"]
 FLUIDS = ["water", "crude-oil", "steam"]
 ALL_TYPES = VIRTUALS + ITEMS + FLUIDS
@@ -87,11 +89,12 @@ class ScalarGen:
             "ops_arith": True, "ops_bit": True, "ops_shift": True, "ops_pow": True,
             "cmp": True, "logic": True, "sel": True, "proj": True, "typelit": True,
             "neg": True, "not": True, "ints": True, "untyped": True, "items": True,
-            "divmod": True, "bases": True, "same_type_inputs": True,
+            "divmod": True, "bases": True, "same_type_inputs": True, "fresh_types": False,
         }
         if feat:
             f.update(feat)
         self.f = f
+        self._fresh_used: set = set()
 
     # ---- swarm
     @staticmethod
@@ -99,7 +102,11 @@ class ScalarGen:
         keys = ["ops_bit", "ops_shift", "ops_pow", "cmp", "logic", "sel", "proj", "typelit",
                 "neg", "not", "ints", "untyped", "items", "divmod", "bases", "same_type_inputs"]
         # each feature on with probability 3/4 (tape 0 -> off -> simpler)
-        return {k: ch.chance(3, 4) for k in keys}
+        f = {k: ch.chance(3, 4) for k in keys}
+        # every named result on a type of its own (keeps programs clear of same-type sums on shared
+        # networks, i.e. of the structure of the crosstalk finding): on in a third of the runs
+        f["fresh_types"] = ch.chance(1, 3)
+        return f
 
     # ---- declarations
     def type_pool(self):
@@ -183,6 +190,29 @@ class ScalarGen:
                 a, b = b, a
         return ["bin", ch.pick(CMP_OPS), a, b]
 
+    def boolish(self, depth: int):
+        """Operands that look like 0/1 values to an optimiser but need not be: comparisons, !x,
+        parity / low-bit tests, products with a comparison, identity arithmetic on them."""
+        ch = self.ch
+        k = ch.weighted([(4, "cmp"), (2, "not"), (3, "mod2"), (2, "and1"), (1, "prod"), (1, "ident"),
+                         (1, "div"), (1, "shr31")])
+        x = self.sig_leaf() if ch.chance(2, 3) else self.sig_operand(max(0, depth - 1))
+        if k == "cmp":
+            return self.simple_cmp()
+        if k == "not":
+            return ["not", x]
+        if k == "mod2":
+            return ["bin", "%", x, ["lit", ch.pick([2, 2, -2, 3]), 10]]
+        if k == "and1":
+            return ["bin", "AND", x, ["lit", ch.pick([1, 1, 3, -1]), 10]]
+        if k == "prod":
+            return ["bin", "*", self.simple_cmp(), x if ch.chance(1, 2) else self.simple_cmp()]
+        if k == "ident":
+            return ["bin", ch.pick(["+", "-", "*", "/"]), self.simple_cmp(), ["lit", ch.pick([0, 1]), 10]]
+        if k == "div":
+            return ["bin", "/", x, x]
+        return ["bin", ">>", x, ["lit", 31, 10]]
+
     def condition(self):
         """Condition usable before ':'"""
         ch = self.ch
@@ -214,7 +244,7 @@ class ScalarGen:
         if f["cmp"]:
             kinds.append((3, "cmp"))
         if f["logic"]:
-            kinds.append((2, "logic"))
+            kinds.append((3, "logic"))
         if f["sel"]:
             kinds.append((3, "sel"))
         if f["proj"]:
@@ -256,7 +286,10 @@ class ScalarGen:
             a, b = self.sig_operand(depth), self.operand(depth)
             return ["bin", ch.pick(CMP_OPS), a, b]
         if k == "logic":
-            a, b = self.sig_operand(depth), self.sig_operand(depth)
+            if ch.chance(2, 3):
+                a, b = self.boolish(depth), self.boolish(depth)
+            else:
+                a, b = self.sig_operand(depth), self.sig_operand(depth)
             return ["bin", ch.pick(["&&", "||"]), a, b]
         if k == "sel":
             cond = self.condition()
@@ -303,6 +336,13 @@ class ScalarGen:
             c.sigs.append(name)
         for _ in range(n_stmts):
             e = self.expr(ch.rint(0, max_depth))
+            if self.f.get("fresh_types"):
+                used = {i["type"] for i in c.inputs} | self._fresh_used
+                free = [t for t in VIRTUALS + MORE_VIRTUALS if t not in used]
+                if free:
+                    t = ch.pick(free)
+                    self._fresh_used.add(t)
+                    e = ["proj", e, t]
             name = c.fresh("s")
             c.stmts.append(["decl", "Signal", name, e])
             c.sigs.append(name)
